@@ -325,7 +325,7 @@ def check_creation(L, drv, rng, stats):
 def check_index_maps(L, drv, rng, stats):
     t = L._mods()["torch"]
     problems = []
-    kind = rng.choice(["flip", "roll", "roll", "trilu"])
+    kind = rng.choice(["flip", "roll", "roll", "trilu", "slice", "slice", "diag", "unfold"])
     stats["value_cases"] += 1
     stats[f"fn:index:{kind}"] += 1
     if kind == "flip":
@@ -341,6 +341,67 @@ def check_index_maps(L, drv, rng, stats):
             problems.append(("property", "flip", c, f"traced graph fails: {err}"))
         elif str(r[0].tolist()).replace(" ", "") != m:
             problems.append(("tie-model", "flip", c, f"onnxruntime {r[0].tolist()} ; model {m}"))
+        return problems
+    if kind == "unfold":
+        # element map of aten_unfold (theorem aten_unfold_index_map): windows of arange(d) are the source positions
+        d = rng.randint(1, 8)
+        size, st = rng.randint(0, d), rng.randint(1, 3)
+        x = np.arange(d, dtype=np.int64)
+        r, term, err = _ort_vals(L, "aten_unfold", [x, 0, size, st], {})
+        _, m, s = _ask3(drv, [f"unfold_idx {d} {size} {st}"])[0]
+        tor = t.tensor(x).unfold(0, size, st).tolist()
+        c = dict(kind="unfold_idx", d=d, size=size, step=st)
+        if s != str(tor).replace(" ", ""):
+            problems.append(("tie-spec", "unfold", c, f"torch {tor} ; spec {s}"))
+        if r is None:
+            problems.append(("property", "unfold", c, f"traced graph fails: {err}"))
+        else:
+            if str(r[0].tolist()).replace(" ", "") != m:
+                problems.append(("tie-model", "unfold", c, f"onnxruntime {r[0].tolist()} ; model {m}"))
+            if r[0].tolist() != tor:
+                problems.append(("property", "unfold", c, f"values: onnx {r[0].tolist()} vs torch {tor}"))
+        return problems
+    if kind == "diag":
+        # element map of aten_diagonal (theorem aten_diagonal_index_map): entry (i, j) of the matrix holds i*cols + j + 1
+        rows, cols = rng.randint(1, 5), rng.randint(1, 5)
+        off = rng.randint(-rows - 1, cols + 1)
+        x = np.asarray((np.arange(rows * cols, dtype=np.int64) + 1).reshape(rows, cols))
+        r, term, err = _ort_vals(L, "aten_diagonal", [x, off, 0, 1], {})
+        _, m, s = _ask3(drv, [f"diag_pos {rows} {cols} {off}"])[0]
+        tor = t.diagonal(t.tensor(x), off, 0, 1).tolist()
+        c = dict(kind="diag_pos", rows=rows, cols=cols, offset=off)
+        if s != str(tor).replace(" ", ""):
+            problems.append(("tie-spec", "diagonal", c, f"torch {tor} ; spec {s}"))
+        if r is None:
+            problems.append(("property", "diagonal", c, f"traced graph fails: {err}"))
+        else:
+            if str(r[0].tolist()).replace(" ", "") != m:
+                problems.append(("tie-model", "diagonal", c, f"onnxruntime {r[0].tolist()} ; model {m}"))
+            if r[0].tolist() != tor:
+                problems.append(("property", "diagonal", c, f"values: onnx {r[0].tolist()} vs torch {tor}"))
+        return problems
+    if kind == "slice":
+        # element map of aten_slice along an axis (theorem aten_slice_index_map): positions selected from arange(d)
+        d = rng.randint(0, 7)
+
+        def bound():
+            return None if rng.random() < 0.25 else rng.randint(-d - 2, d + 2)
+        a, b, st = bound(), bound(), (None if rng.random() < 0.3 else rng.randint(1, 3))
+        x = np.arange(d, dtype=np.int64)
+        r, term, err = _ort_vals(L, "aten_slice", [x, 0, a, b, st], {})
+        o = lambda v: "N" if v is None else str(v)
+        _, m, s = _ask3(drv, [f"slice_map {d} {o(a)} {o(b)} {o(st)} ."])[0]
+        tor = t.ops.aten.slice(t.tensor(x), 0, a, b, 1 if st is None else st).tolist()
+        c = dict(kind="slice_map", d=d, start=a, end=b, step=st)
+        if s != str(tor).replace(" ", ""):
+            problems.append(("tie-spec", "slice", c, f"torch {tor} ; spec {s}"))
+        if r is None:
+            problems.append(("property", "slice", c, f"traced graph fails: {err}"))
+        else:
+            if str(r[0].tolist()).replace(" ", "") != m:
+                problems.append(("tie-model", "slice", c, f"onnxruntime {r[0].tolist()} ; model {m}"))
+            if r[0].tolist() != tor:
+                problems.append(("property", "slice", c, f"values: onnx {r[0].tolist()} vs torch {tor}"))
         return problems
     if kind == "roll":
         d = rng.randint(1, 6)
